@@ -189,6 +189,45 @@ def real_routes(arg):
     return out
 
 
+def complex_routes(arg):
+    """complex field data: the routes must agree with each other, and the real part must be the result for the
+    real part of the data (the conditions have real values)"""
+    import logging
+    import pde
+    from pde import get_backend
+    from pde.backends.numba.utils import numba_dict
+
+    logging.getLogger("pde").setLevel(logging.ERROR)
+    case, seed = arg
+    grid = c02.make_grid(case["grid"])
+    rank, op, opts, t = case["rank"], case["op"], case["opts"], case["t"]
+    rout = c01.RANKS[op][1]
+    fcls = [pde.ScalarField, pde.VectorField, pde.Tensor2Field][rank]
+    valid = tuple([slice(None)] * rank + [slice(1, -1)] * grid.num_axes)
+    a = case["data"][valid].astype(float)
+    rs = np.random.RandomState(seed)
+    b = rs.randint(-9, 10, a.shape).astype(float)
+    if case["cls"] == "sph" and rank >= 1:
+        b[1:] = 0
+    z = a + 1j * b
+    out = {}
+    f = fcls(grid, data=z.copy(), dtype=complex)
+    out["field"] = np.array(f.apply_operator(op, bc=case["spec"], args={"t": t}, **opts).data)
+    nb_op = grid.make_operator(op, bc=case["spec"], backend="numba", dtype=complex, **opts)
+    out["make_operator"] = np.array(nb_op(z.copy(), args=numba_dict(t=float(t))))
+    bcs = grid.get_boundary_conditions(case["spec"], rank=rank)
+    no_bc = grid.make_operator_no_bc(op, backend="numba", dtype=complex, **opts)
+    full = np.zeros(case["data"].shape, dtype=complex)
+    full[valid] = z
+    bcs.set_ghost_cells(full, args={"t": t})
+    o = np.full((grid.dim,) * rout + tuple(grid.shape), np.nan, dtype=complex)
+    no_bc(full, o)
+    out["set_ghost_cells+no_bc"] = o
+    fr = fcls(grid, data=a.copy())
+    out["real-reference"] = np.array(fr.apply_operator(op, bc=case["spec"], args={"t": t}, **opts).data)
+    return out
+
+
 def thread_case(arg):
     """results of three operators on a grid above the (lowered) threshold with the configured thread count"""
     import pde
@@ -313,6 +352,32 @@ def run(ctx):
             i_ = int(np.argmax(np.abs(model - ref))) if model.shape == ref.shape else -1
             ctx.disagree("routes", dict(short, data=key["data"], index=i_), float(model[i_]) if i_ >= 0 else list(model.shape),
                          float(ref[i_]) if i_ >= 0 else list(ref.shape), f"model differs from route {ref_name}")
+
+    # ---- complex data -----------------------------------------------------------------------------------
+    lin = [c for c in cases if c["op"] != "gradient_squared"]
+    csub = rng.sample(lin, min(ctx.budget(40, 400), len(lin)))
+    res_c = run_many("harness.c03", "complex_routes", [(c, rng.randint(0, 10 ** 6)) for c in csub],
+                     env={"NUMBA_DISABLE_JIT": "1"}, procs=16)
+    for c, rr in zip(csub, res_c):
+        short = {"grid": c["grid"], "op": c["op"], "opts": c["opts"], "spec": repr(c["spec"]), "t": c["t"], "dtype": "complex"}
+        ctx.count(short, nontrivial=True, leg="complex")
+        ctx.impl_traces += 1
+        ctx.monitor_evals += 1
+        if isinstance(rr, str):
+            ctx.monitor_fail("complex", short, rr[-400:], "a result", f"{c['cls']} {c['op']}: complex data raised",
+                             key={"op": c["op"], "leg": "complex"})
+            continue
+        ref = rr["field"]
+        sc = 1.0 + float(np.abs(ref).max())
+        for name in ("make_operator", "set_ghost_cells+no_bc"):
+            if rr[name].shape != ref.shape or np.abs(rr[name] - ref).max() > 1e-10 * sc:
+                ctx.monitor_fail("complex", dict(short, routes=["field", name]), float(np.abs(rr[name] - ref).max()),
+                                 "routes agree on complex data", f"{c['cls']} {c['op']}: routes disagree on complex data",
+                                 key={"op": c["op"], "leg": "complex"})
+        if np.abs(ref.real - rr["real-reference"]).max() > 1e-10 * sc:
+            ctx.monitor_fail("complex", short, float(np.abs(ref.real - rr["real-reference"]).max()),
+                             "real part of the complex result = result of the real part",
+                             f"{c['cls']} {c['op']}: complex and real evaluation differ", key={"op": c["op"], "leg": "complex-vs-real"})
 
     # ---- threads ---------------------------------------------------------------------------------------
     shapes = [[12, 10]] + ([[6, 5, 4]] if ctx.tier == "thorough" else [])
